@@ -116,7 +116,7 @@ func (c *GenCfg) without(ks ...string) {
 
 var rawStrings = []string{"caf\xe9", "\xff\xfeab", "ab\xc3", "a\x80b\x80c", "\xe9\xe8\xe7\xe6\xe5"}
 
-var strDomain = []string{"a", "ab", "abc", "abcd", "hello", "Hello1", "x!", "zzz", "abcdefgh", "Q", "7up", "a b", "12", "true", "é", "ab#", "pa$$w0rd", "$HOME", "a${b}c", "50%", "red,green", "a, b"}
+var strDomain = []string{"a", "ab", "abc", "abcd", "hello", "Hello1", "x!", "zzz", "abcdefgh", "Q", "7up", "a b", "12", "true", "é", "ab#", "pa$$w0rd", "$HOME", "a${b}c", "50%", "red,green", "a, b", "\u200b", "\ufeffx"}
 var timeBase = "2024-01-10T00:00:00Z"
 
 func dayTime(k int) string {
@@ -208,7 +208,7 @@ func genTests(r *Rng, c *GenCfg, n *Node) {
 						t.L = append(t.L, VS(Pick(r, strDomain)))
 					}
 				case "contains", "prefix", "suffix":
-					t.S = Pick(r, []string{"a", "ab", "h", "z", "1", "lo", "!"})
+					t.S = Pick(r, []string{"a", "ab", "h", "z", "1", "lo", "!", "a", "ab", "h", ""}) // the empty needle is in every string
 				}
 				if k != "min" && k != "max" && r.P(0.2) {
 					t.Not = true
@@ -331,6 +331,100 @@ func GenNode(r *Rng, c *GenCfg, depth int, root bool) *Node {
 
 // DeepChain builds a narrow schema whose paths have `segments` segments or more
 // (structs in slices in structs ...), with 1-2 failing-prone leaves per level.
+// AddEmptyZogTag gives, in some nested structs, one untagged leaf field (a primitive or a list of primitives) the
+// tag `zog:""`: its input key and its path segment are the empty string (`address.` - an odd but legal configuration).
+func AddEmptyZogTag(r *Rng, root *Node, p float64) {
+	var walk func(n *Node, depth int)
+	walk = func(n *Node, depth int) {
+		if n == nil {
+			return
+		}
+		if n.Kind == "struct" && depth > 0 && r.P(p) {
+			var cands []*Field
+			for _, f := range n.Fields {
+				if len(f.Tags) == 0 && (f.N.IsPrim() || (f.N.Kind == "slice" && f.N.Elem.IsPrim())) {
+					cands = append(cands, f)
+				}
+			}
+			if len(cands) > 0 {
+				f := cands[r.Intn(len(cands))]
+				f.Tags = []KV{{"zog", VS("")}}
+			}
+		}
+		for _, f := range n.Fields {
+			walk(f.N, depth+1)
+		}
+		walk(n.Elem, depth+1)
+	}
+	walk(root, 0)
+}
+
+func hasEmptyZogTag(n *Node) bool {
+	found := false
+	n.Walk(func(m *Node) {
+		for _, f := range m.Fields {
+			if v, ok := f.Tag("zog"); ok && v == "" {
+				found = true
+			}
+		}
+	})
+	return found
+}
+
+// NonEmptyRecords makes every record on the way to a field tagged `zog:""` present and non-empty in a Parse input
+// (an absent or empty record is looked up by schema keys - the open finding F-TAGS - which is not what these worlds are about).
+func NonEmptyRecords(n *Node, v Val) Val {
+	if n == nil || !hasEmptyZogTag(n) {
+		return v
+	}
+	switch n.Kind {
+	case "struct":
+		if v.K != "m" {
+			if !v.IsNil() {
+				return v
+			}
+			v = VM()
+		}
+		out := VM()
+		seen := map[string]bool{}
+		for _, kv := range v.M {
+			var sub *Node
+			for _, f := range n.Fields {
+				if f.Key == kv.K {
+					sub = f.N
+				}
+			}
+			seen[kv.K] = true
+			if sub != nil {
+				out.M = append(out.M, KV{kv.K, NonEmptyRecords(sub, kv.V)})
+			} else {
+				out.M = append(out.M, kv)
+			}
+		}
+		for _, f := range n.Fields {
+			if !seen[f.Key] && f.N.Kind == "struct" && hasEmptyZogTag(f.N) {
+				out.M = append(out.M, KV{f.Key, NonEmptyRecords(f.N, VNil())})
+			}
+		}
+		if len(out.M) == 0 {
+			out.M = append(out.M, KV{"zz_unused", VS("x")})
+		}
+		return out
+	case "slice":
+		if v.K != "l" {
+			return v
+		}
+		out := VL()
+		for _, e := range v.L {
+			out.L = append(out.L, NonEmptyRecords(n.Elem, e))
+		}
+		return out
+	case "ptr", "pre":
+		return NonEmptyRecords(n.Elem, v)
+	}
+	return v
+}
+
 // DeepSegments draws a path length: mostly just beyond a cold path builder's five segments, sometimes beyond
 // its first and second growth steps (10, 20).
 func DeepSegments(r *Rng) int {
@@ -419,6 +513,7 @@ func genKind(r *Rng, c *GenCfg, kind string, depth int) *Node {
 			n.CoVal = &v
 		}
 	case "struct":
+		n.Extra = r.P(0.1)
 		nf := 1 + r.Intn(c.MaxFields)
 		used := map[string]bool{}
 		for i := 0; i < nf; i++ {
